@@ -54,6 +54,11 @@ pub enum Ending {
   TakeUntilTimer,
   AmbNever,
   Retry2,
+  /// the other operators that end by themselves: contains(1), element_at(2), take_while(<1), all(<1)
+  Contains,
+  ElementAt,
+  TakeWhile,
+  All,
 }
 
 fn applicable(c: Creator, e: Ending) -> bool {
@@ -64,6 +69,7 @@ fn applicable(c: Creator, e: Ending) -> bool {
     (Interval | Timer | IntervalFlatMapObserveOn | IntervalSampleInterval | IntervalPublish | IntervalDelay | IntervalRefCount | IntervalReplay | StartWithIntervalRefCount | StartWithIntervalReplay, SourceError | Retry2) => false,
     (Interval | IntervalFlatMapObserveOn | IntervalSampleInterval | IntervalPublish | IntervalDelay | IntervalRefCount | IntervalReplay | StartWithIntervalRefCount | StartWithIntervalReplay, SourceComplete) => false,
     (IntervalPublish, Take1 | First | TakeUntilTimer | AmbNever) => false,
+    (c, Contains | ElementAt | TakeWhile | All) => matches!(c, Interval | HotObserveOn | ColdObserveOn | ColdSubscribeOn | IntervalRefCount),
     (HotDebounceFeedback | HotObserveOnFeedback, Retry2 | TakeUntilTimer | AmbNever | First) => false,
     (TimerNotYetFired | IntervalNotYetFired, e) => e == Unsubscribe,
     (JustTakeUntilTimer | JustSampleInterval, e) => matches!(e, SourceComplete | Unsubscribe),
@@ -156,6 +162,10 @@ fn end_with(o: Observable<'static, i64>, e: Ending) -> Observable<'static, i64> 
     Ending::TakeUntilTimer => o.take_until(observables::timer(ms(25), nt())),
     Ending::AmbNever => o.amb(&[observables::never()]).take(2),
     Ending::Retry2 => o.retry(2),
+    Ending::Contains => o.contains(1).map(|b| b as i64),
+    Ending::ElementAt => o.element_at(2),
+    Ending::TakeWhile => o.take_while(|x| x < 1),
+    Ending::All => o.all(|x| x < 1).map(|b| b as i64),
     _ => o,
   }
 }
@@ -245,7 +255,7 @@ pub fn c15_scenarios() -> Vec<Scn> {
   use Creator::*;
   use Ending::*;
   let creators = [Interval, Timer, HotObserveOn, ColdSubscribeOn, ColdObserveOn, HotDebounce, HotTimeout, IntervalFlatMapObserveOn, ColdObserveOnTwice, IntervalSampleInterval, IntervalPublish, IntervalDelay, IntervalRefCount, IntervalReplay, StartWithIntervalRefCount, StartWithIntervalReplay, HotDebounceFeedback, HotObserveOnFeedback, TimerNotYetFired, IntervalNotYetFired, JustTakeUntilTimer, JustSampleInterval];
-  let endings = [SourceComplete, SourceError, Unsubscribe, Take1, First, TakeUntilTimer, AmbNever, Retry2];
+  let endings = [SourceComplete, SourceError, Unsubscribe, Take1, First, TakeUntilTimer, AmbNever, Retry2, Contains, ElementAt, TakeWhile, All];
   let mut v = vec![];
   for c in creators {
     for e in endings {
@@ -258,7 +268,7 @@ pub fn c15_scenarios() -> Vec<Scn> {
       } else if matches!((c, e), (HotObserveOn, Retry2) | (HotTimeout, Retry2) | (HotDebounce, Retry2)) {
         // a re-subscription on the worker thread racing the unsubscribe
         Some(2)
-      } else if matches!(e, Unsubscribe | Take1) || matches!(c, JustTakeUntilTimer | JustSampleInterval) {
+      } else if matches!(e, Unsubscribe | Take1 | Contains | ElementAt | TakeWhile | All) || matches!(c, JustTakeUntilTimer | JustSampleInterval) {
         Some(1)
       } else {
         None
@@ -325,10 +335,11 @@ where
 pub fn c16_scenarios() -> Vec<Scn> {
   let mut v = vec![];
   // interval(d): n at (n+1)*d until unsubscribed at time u
-  for d in [10u64, 20] {
+  // (39 ms: a period that is neither small nor a multiple of anything a timer might round to)
+  for d in [10u64, 20, 39] {
     for u in [d / 2, d + d / 2, 2 * d + d / 2, 3 * d + 3] {
       let name = format!("c16/interval({}ms) unsubscribed at {}ms", d, u);
-      let quick = d == 10;
+      let quick = d == 10 || (d == 39 && u == 2 * d + d / 2);
       v.push(time_scn(
         &name,
         if quick { Some(2) } else { None },
@@ -373,7 +384,7 @@ pub fn c16_scenarios() -> Vec<Scn> {
     },
   ));
   // timer(d): once at d, then complete
-  for d in [10u64, 20] {
+  for d in [10u64, 20, 39] {
     v.push(time_scn(
       &format!("c16/timer({}ms)", d),
       if d == 10 { Some(2) } else { None },
@@ -489,6 +500,26 @@ pub fn c16_scenarios() -> Vec<Scn> {
       },
     ));
   }
+  // timeout(39ms): gap of 30 ms passes, silence afterwards fails exactly 39 ms after the last item
+  v.push(time_scn(
+    "c16/timeout(39ms): gap of 30ms, then silence",
+    Some(1),
+    Some(2),
+    move |rec, causes| {
+      let src = threaded_source("a", vec![Emit::N(1), Emit::N(2)], vec![0, 30], causes.clone());
+      let _s = rec.sub_i64(&src.timeout(ms(39), nt()));
+      thread::sleep(ms(120));
+    },
+    move |tm, _, _| {
+      let got: Vec<(EvK, u64)> = tm.iter().map(|x| (x.k.clone(), x.at_ms)).collect();
+      let want = vec![(EvK::Next(1), 0u64), (EvK::Next(2), 30), (EvK::Error(-110), 69)];
+      if got != want {
+        vec![viol("timeout-off-the-clock", format!("got {}, want {:?} (Error(-110) = io::ErrorKind::TimedOut)", show_timed(tm), want))]
+      } else {
+        vec![]
+      }
+    },
+  ));
   // sample / debounce: only items the source emitted, in source order, none twice
   for op in ["sample", "debounce"] {
     for (gi, gaps) in [vec![3u64, 7, 13, 27], vec![7, 3, 3, 13]].into_iter().enumerate() {
